@@ -1,6 +1,7 @@
 package props
 
 import (
+	"context"
 	"encoding/json"
 	"fmt"
 	"sort"
@@ -257,6 +258,25 @@ func checkAny(c *h.Ctx, docText string, doc any, listings [][]wnode, spec anySpe
 		return
 	}
 	got := canonItems(o.Items)
+	// a traversal that is interrupted (the context becomes done between two of
+	// the executor's polls) either fails or has visited every node: a result
+	// with a nil error is the complete one
+	c15Seq++
+	if len(o.Items) > 1 && c15Seq%3 == 0 {
+		want := sortedCanon(o.Items)
+		for n := 1; n <= min(o.Polls, 5); n++ {
+			m := &h.CallMon{CancelAt: -1, CancelAfterPoll: n, Cause: context.Canceled}
+			oi := h.CallMonitored("query", p, h.Decode(docText, c15UseNum), h.Opts{}, m)
+			c.Eval(1)
+			if oi.Class == h.OK && oi.Err == nil && sortedCanon(oi.Items) != want {
+				ics := cs
+				ics.Extra = map[string]string{"context-done-after-poll": fmt.Sprint(n)}
+				c.Violate("interrupted", h.F("mode", modeName(lax)), fmt.Sprintf("Query(%s) on %s, with a context that became done after the executor's poll %d of %d, returned [%s] and a nil error; every node is [%s]", ptxt, docText, n, o.Polls, canonItems(oi.Items), got), ics)
+				break
+			}
+			c.Held("interrupted")
+		}
+	}
 	// the result-less traversal (Exists) agrees with the collecting one
 	if suffix == "" {
 		oe := h.Call("exists", p, h.Decode(docText, c15UseNum), h.Opts{})
@@ -337,6 +357,17 @@ func checkAny(c *h.Ctx, docText string, doc any, listings [][]wnode, spec anySpe
 		kind = "wrong-order"
 	}
 	c.Violate(clause, h.F("mode", modeName(lax), "kind", kind, "suffix", suffix), fmt.Sprintf("Query(%s) on %s = [%s]; the tree walk gives [%s] (members of one object in any order)", ptxt, docText, got, firstWant), cs)
+}
+
+var c15Seq int
+
+func sortedCanon(items []any) string {
+	parts := make([]string, len(items))
+	for i, it := range items {
+		parts[i] = h.CanonTyped(it)
+	}
+	sort.Strings(parts)
+	return strings.Join(parts, " | ")
 }
 
 func checkTree(c *h.Ctx, docText string, specs []anySpec, full bool) {
